@@ -5,12 +5,12 @@ set -u
 patch=$(readlink -f "$1"); shift
 wt=$(mktemp -d /tmp/mutest-XXXXXX)
 git -C /repo worktree add -q --detach "$wt" HEAD || exit 3
-trap 'git -C /repo worktree remove --force "$wt" 2>/dev/null; rm -rf "$wt"' EXIT
+trap 'git -C /repo worktree remove --force "$wt" 2>/dev/null; rm -rf "$wt" "$wt-out"' EXIT
 git -C "$wt" apply "$patch" || { echo "patch does not apply"; exit 3; }
 rc=0
 for id in "$@"; do
   # separate evidence/log dirs are not needed: the driver writes per-ID files; do not run two mutests of the same ID at once
-  out=$(cd /verif && VERIF_REPO="$wt" timeout 1500 ./run check "$id" "${VERIF_TIER:-quick}" 2>&1)
+  out=$(cd /verif && VERIF_REPO="$wt" VERIF_OUT="$wt-out" timeout 1500 ./run check "$id" "${VERIF_TIER:-quick}" 2>&1)
   r=$?
   echo "$out" | grep -E "^(VIOLATION|KNOWN-FINDING|BUILD-FAILED|INCONCLUSIVE)" | cut -c1-220 | sed 's/replay=[^ ]*//' | sort | uniq -c | sort -rn | head -8
   echo "== $id exit=$r"
